@@ -5,7 +5,8 @@ tree builds, demo fails with it, and the stable baseline (189 tests of /root/.vp
 Writes the outcome into seeded/<id>/meta.json under "confirmed"."""
 import sys, os, json, subprocess
 ROOT = os.path.dirname(os.path.dirname(os.path.abspath(__file__)))
-WT = os.environ.get("SEED_CONFIRM_WT", "/tmp/xvc-verif-confirmwt")
+TAG = os.environ.get("SEED_CONFIRM_TAG", "")          # a second instance may run beside the first: every scratch name gets the tag
+WT = os.environ.get("SEED_CONFIRM_WT", "/tmp/xvc-verif-confirmwt" + TAG)
 def sh(cmd, **kw):
     return subprocess.run(cmd, shell=True, text=True, stdout=subprocess.PIPE, stderr=subprocess.STDOUT, **kw)
 if not os.path.exists(WT):
@@ -13,8 +14,8 @@ if not os.path.exists(WT):
 for sid in sys.argv[1:]:
     d0 = os.path.join(ROOT, "seeded", sid)
     # the demos build into a shared target dir that seed-writing agents also use: run a private copy
-    d = "/tmp/xvc-verif-confirm-demo"
-    sh("rm -rf %s && cp -a %s %s && grep -rlE '/tmp/seed-(c[0-9a-z]*-)?target' %s | xargs -r sed -i -E 's#/tmp/seed-(c[0-9a-z]*-)?target#/tmp/seed-target-confirm#g'" % (d, d0, d, d))
+    d = "/tmp/xvc-verif-confirm-demo" + TAG
+    sh("rm -rf %s && cp -a %s %s && grep -rlE '/tmp/seed-(c[0-9a-z]*-)?target' %s | xargs -r sed -i -E 's#/tmp/seed-(c[0-9a-z]*-)?target#/tmp/seed-target-confirm%s#g'" % (d, d0, d, d, TAG))
     # scratch directories the demos expect from the seed writer's session
     for m in set(__import__("re").findall(r"/tmp/seed-c[0-9a-z]*-out", sh("cat %s/demo.sh" % d).stdout)):
         for sub in ("scratch", "1", "2", "3"):
@@ -26,7 +27,7 @@ for sid in sys.argv[1:]:
     r = sh("%s/demo.sh %s" % (d, WT)); res["demo_without_patch_exit"] = r.returncode
     a = sh("git -C %s apply %s/patch.diff" % (WT, d)); res["patch_applies"] = a.returncode == 0
     r = sh("%s/demo.sh %s" % (d, WT)); res["demo_with_patch_exit"] = r.returncode; res["demo_with_patch_tail"] = r.stdout[-600:]
-    b = sh("BASELINE_TARGET=/tmp/seed-target-nextest %s/tools/baseline.sh %s" % (ROOT, WT)); res["baseline_with_patch"] = b.stdout.strip().split("\n")[-1] if b.returncode == 0 else "FAIL: " + b.stdout[-500:]
+    b = sh("BASELINE_TARGET=/tmp/seed-target-nextest%s %s/tools/baseline.sh %s" % (TAG, ROOT, WT)); res["baseline_with_patch"] = b.stdout.strip().split("\n")[-1] if b.returncode == 0 else "FAIL: " + b.stdout[-500:]
     res["ok"] = res["demo_without_patch_exit"] == 0 and res["patch_applies"] and res["demo_with_patch_exit"] != 0 and b.returncode == 0
     sh("git -C %s checkout -- . ; git -C %s clean -fdq -e target" % (WT, WT))
     m = json.load(open(os.path.join(d0, "meta.json"))); m["confirmed"] = res
